@@ -558,6 +558,8 @@ PROPS["C08"] = dict(
         H("c08_str_w4", tier="quick", timeout=1800, bounds="\"w\", w=4", **c08(6, 4, 1, 0, 0)),
         H("c08_str_w5", tier="thorough", timeout=2700, bounds="\"w\", w=5", **c08(7, 5, 1, 0, 0)),
         H("c08_uesc_w4", tier="thorough", timeout=1800, bounds="\"\\\\uw\", w=4", **c08(8, 4, 1, 0, 0)),
+        H("c08_unpaired_surrogate_escape", tier="quick", kind="finding", finding="C08-unpaired-surrogate-escape",
+          finding_match=r"rfc8259_text_is_accepted", timeout=900, bounds="every text \"\\uXXXX\" with XXXX a surrogate code point", **c08(8, 4, 1, 0, 0)),
         H("c08_minus_w3", tier="quick", timeout=1200, bounds="-w, w=3", **c08(4, 3, 1, 0, 0)),
         H("c08_digit_w4", tier="thorough", timeout=1800, bounds="1w, w=4", **c08(5, 4, 1, 0, 0)),
         H("c08_ws_w3", tier="thorough", timeout=1800, bounds="whitespace / CR LF around w=3", **c08(8, 3, 1, 0, 0)),
@@ -704,7 +706,7 @@ PROPS["C04"] = dict(
         H("c04_free_enclose_len100", tier="thorough", timeout=2700, unwindset=U04, bounds="free enclose, 2 arbitrary words, len 100, every p <= 131"),
         H("c04_free_enclose_len128", tier="thorough", timeout=2700, unwindset=U04, bounds="free enclose, 2 arbitrary words, len 128, every p <= 131"),
         H("c04_free_enclose_len65", tier="thorough", timeout=2700, unwindset=U04, bounds="free enclose, 2 arbitrary words, len 65, every p <= 131"),
-        H("c04_free_close_len63", tier="thorough", timeout=2700, unwindset=U04, bounds="free find_close, len 63"),
+        H("c04_free_close_len63", tier="quick", timeout=1800, mem_gb=12, unwindset=U04, bounds="free find_close on 2 arbitrary storage words with len 63 (stray bits and a whole surplus word past len), every p <= 131"),
         H("c04_free_open_len64", tier="thorough", timeout=2700, unwindset=U04, bounds="free find_open, len 64"),
         H("c04_free_enclose_len63", tier="thorough", timeout=2700, unwindset=U04, bounds="free enclose, len 63"),
         H("c04_w1_close_len40", tier="quick", timeout=1800, unwindset=U04W1, bounds="BalancedParens on 1 arbitrary word, len 40: find_close"),
